@@ -337,6 +337,90 @@ def low_flags() -> dict:
     return dict(status='confirmed', reason=f'{seen} classes', native_replays=seen)
 
 
+_LK_CACHE: dict = {}
+
+
+def _lk(name: str) -> Any:
+    from crosshair.tracers import NoTracing
+    with NoTracing():
+        if name not in _LK_CACHE:
+            _LK_CACHE[name] = _lookups()[name]()
+        return _LK_CACHE[name]
+
+
+def _hand_classes() -> dict:
+    import inspect
+    import pokerkit.hands as H
+    return {n: c for n, c in vars(H).items()
+            if inspect.isclass(c) and issubclass(c, H.Hand) and hasattr(c, 'low') and hasattr(c, 'lookup')}
+
+
+def h_keys(ctx: Any, lookup: str, k: int) -> None:
+    """L3: real Card predicates, Lookup._get_key / has_entry / get_entry and Hand.__init__
+    on k cards with symbolic (pinned) rank and suit, unknowns included."""
+    from engine import smt_tables as T
+    from pokerkit.lookups import Lookup
+    from pokerkit.utilities import Card, Rank, Suit
+    RANKS, SUITS = list(Rank), list(Suit)
+    mult = dict(getattr(Lookup, '_Lookup__multipliers'))
+    lk = _lk(lookup)
+    rules = T.RULES[lookup]
+    cards = []
+    for i in range(k):
+        cards.append(Card(RANKS[ctx.choice(f'r{i}', len(RANKS))], SUITS[ctx.choice(f's{i}', len(SUITS))]))
+    for i in range(k):
+        for j in range(i):
+            ctx.assume(cards[i] != cards[j])     # card SETS
+    suits = [c.suit for c in cards]
+    ranks = [c.rank for c in cards]
+    suited = all(x == suits[0] for x in suits)
+    rainbow = all(suits[i] != suits[j] for i in range(k) for j in range(i))
+    paired = any(ranks[i] == ranks[j] for i in range(k) for j in range(i))
+    ctx.check(Card.are_suited(cards) == suited, 'are_suited')
+    ctx.check(Card.are_rainbow(cards) == rainbow, 'are_rainbow')
+    ctx.check(Card.are_paired(cards) == paired, 'are_paired')
+    unknown_rank = any(r == Rank.UNKNOWN for r in ranks)
+    exp_key = None
+    if not unknown_rank and not (rules.get('badugi') and not rainbow):
+        p = 1
+        for r in ranks:
+            p *= mult[r]
+        exp_key = (p, suited)
+    try:
+        key = lk._get_key(cards)
+        ctx.check(exp_key is not None and key == exp_key, 'key', lambda: f'{cards} {key} {exp_key}')
+        ctx.cover('key')
+    except ValueError:
+        ctx.check(rules.get('badugi') and not rainbow, 'key-valueerror', lambda: f'{cards}')
+        ctx.cover('nonrainbow')
+    except KeyError:
+        ctx.check(unknown_rank, 'key-keyerror', lambda: f'{cards}')
+        ctx.cover('unknown')
+    # validity by the rules (python statement), independent of the table
+    rk = None
+    if not unknown_rank and not any(s_ == Suit.UNKNOWN for s_ in suits) or (not unknown_rank):
+        rk = py_rule_key(rules, ''.join(str(r.value) for r in ranks), suited) if not unknown_rank else None
+        if rules.get('badugi') and not rainbow:
+            rk = None
+    try:
+        has = lk.has_entry(cards)
+        ctx.check(has == (rk is not None), 'has_entry', lambda: f'{cards} has={has} rules={rk}')
+    except KeyError:
+        ctx.check(unknown_rank, 'has_entry-keyerror')
+        has = False
+    for hname, hcls in _hand_classes().items():
+        if type(hcls.lookup).__name__ != lookup:
+            continue
+        try:
+            hand = hcls(cards)
+            ctx.check(has, 'hand-accepted-invalid', lambda: f'{hname} {cards}')
+            ctx.check(hand.cards == tuple(cards), 'hand-cards')
+            ctx.cover('hand-ok')
+        except (ValueError, KeyError):
+            ctx.check(not has, 'hand-rejected-valid', lambda: f'{hname} {cards}')
+            ctx.cover('hand-rejected')
+
+
 BIG = {'StandardLookup': {'HIGH_CARD', 'ONE_PAIR'}, 'RegularLookup': {'HIGH_CARD', 'ONE_PAIR'}}
 
 
@@ -371,5 +455,9 @@ def jobs(tier: str, seed: int) -> list[dict]:
                         budget_s=120, must_cover=['compared', 'typeerror']))
         out.append(dict(name=f'L2/hash/low{int(low)}', fn='h_hash', params=dict(low=low),
                         budget_s=120, must_cover=['hashed', 'equal']))
+    for lk in names:
+        for k in ((1, 2) if tier == 'quick' else (1, 2)):
+            out.append(dict(name=f'L3/{lk}/k{k}', fn='h_keys', params=dict(lookup=lk, k=k),
+                            budget_s=280, must_cover=['key']))
     out.append(dict(name='L2/low-flags', kind='native', fn='low_flags', params={}, budget_s=30))
     return out
